@@ -77,6 +77,7 @@ package internal
 
 //@ func isError
 //@   option props=[C13]
+//@   ensures [C13] only-named-types-are-errors: implies(result, typeof(t) == typeid("*go/types.Named"))
 
 //@ func isPackagePathEquivalent
 //@   option props=[C13]
@@ -116,18 +117,24 @@ package internal
 //@   option props=[C13]
 //@   requires $C
 
+//@ macro RESULTS = pure("(*go/types.Signature).Results", f.Sig)
+//@ macro NRESULTS = pure("(*go/types.Tuple).Len", pure("(*go/types.Signature).Results", f.Sig))
+//@ macro LASTTYPE = pure("(*go/types.object).Type", addr0(pure("(*go/types.Tuple).At", pure("(*go/types.Signature).Results", f.Sig), pure("(*go/types.Tuple).Len", pure("(*go/types.Signature).Results", f.Sig)) - 1)))
+
 //@ func (*compiler).compileFunction
 //@   option props=[C13]
 //@   requires $C
 //@   at call TypeOf 1 assume typeChecked-argument-expression-has-a-type: ret != nil
 //@   loop 1 invariant index-non-negative: 0 <= i
-//@   loop 2 invariant index-non-negative: 0 <= i
+//@   loop 2 invariant [C13] every-result-so-far-is-an-output-or-the-final-error: 0 <= i && i <= $NRESULTS && len(f.Outputs) + ite(f.HasError, 1, 0) == i && implies(f.HasError, i == $NRESULTS && typeof($LASTTYPE) == typeid("*go/types.Named"))
+//@   ensures [C13] outputs-are-the-non-error-results: implies(result != nil, len(result.Outputs) + ite(result.HasError, 1, 0) == pure("(*go/types.Tuple).Len", pure("(*go/types.Signature).Results", result.Sig)))
+//@   ensures [C13] an-error-result-is-the-last-and-of-a-named-type: implies(result != nil && result.HasError, typeof(pure("(*go/types.object).Type", addr0(pure("(*go/types.Tuple).At", pure("(*go/types.Signature).Results", result.Sig), pure("(*go/types.Tuple).Len", pure("(*go/types.Signature).Results", result.Sig)) - 1)))) == typeid("*go/types.Named"))
+//@   ensures [C13] signature-is-the-underlying-type-of-the-expression: implies(result != nil, result.Sig == dataof(pure("invoke go/types.Type.Underlying", pure("(*go/types.Info).TypeOf", c.info, expr))))
 
 //@ func (*compiler).compilePredicate
 //@   option props=[C13]
 //@   requires $C && f != nil && t != nil && call != nil
 //@   requires typeChecked-predicate-has-function: len(call.Args) == 1
-//@   at call compileFunction 1 assume unproved-compileFunction-keeps-the-single-non-error-result: implies(ret != nil, len(ret.Outputs) >= 1)
 
 //@ func (*compiler).compileParallelTaskFn
 //@   option props=[C13]
